@@ -157,15 +157,18 @@ def minOver (h : Nat → Nat) (top : Nat) (xs : List Nat) : Nat :=
 def signature (hs : List (Nat → Nat)) (top : Nat) (feats : List Nat) : List Nat :=
   if feats.isEmpty then hs.map (fun _ => 0) else hs.map (fun h => minOver h top feats)
 
-def effRows (rows : Int) : Nat := if rows ≤ 0 then 4 else rows.toNat
+/-- rows per band: default 4, and (since the repair of F18) never more than the signature has hashes -/
+def effRows (rows : Int) (total : Nat) : Nat :=
+  let r := if rows ≤ 0 then 4 else rows.toNat
+  if 0 < total ∧ total < r then total else r
 def effBands (bands rows : Int) (total : Nat) : Nat :=
   let b := if bands ≤ 0 then 32 else bands.toNat
-  min b (total / effRows rows)
+  min b (total / effRows rows total)
 
 /-- band keys: (band number, hash of that band's slice of the signature) -/
 def bandKeys (kh : List Nat → Nat) (bands rows : Int) (sig : List Nat) : List (Nat × Nat) :=
   (List.range (effBands bands rows sig.length)).map fun band =>
-    (band, kh ((sig.drop (band * effRows rows)).take (effRows rows)))
+    (band, kh ((sig.drop (band * effRows rows sig.length)).take (effRows rows sig.length)))
 
 /-- j is returned by `FindCandidates(sig i)` iff the two signatures share a band key -/
 def isCand (kh : List Nat → Nat) (bands rows : Int) (sigs : Nat → List Nat) (i j : Nat) : Bool :=
